@@ -882,11 +882,37 @@ theorem wellNamed_spec {c : Circ} (h : wellNamed c = true) : WellNamedSpec c := 
   obtain ⟨x, hx⟩ := hm
   exact this x hx
 
+theorem freshName_not_mem (names : List Text) (fuel : Nat) (n : Text) (h : n ∉ names) :
+    freshName names fuel n = n := by
+  cases fuel with
+  | zero => rfl
+  | succ f =>
+    simp only [freshName]
+    split
+    · next hc => exact absurd (by simpa using hc) h
+    · rfl
+
+theorem identOK_underscore {n : Text} (h : identOK n = true) : identOK ('_' :: n) = true := by
+  simp only [identOK, List.isEmpty_cons, Bool.not_false, Bool.true_and, List.all_cons, Bool.and_eq_true] at h ⊢
+  exact ⟨by decide, h.2⟩
+
+theorem freshName_identOK (names : List Text) : ∀ (fuel : Nat) (n : Text), identOK n = true →
+    identOK (freshName names fuel n) = true := by
+  intro fuel
+  induction fuel with
+  | zero => intro n h; exact h
+  | succ f ih =>
+    intro n h
+    simp only [freshName]
+    split
+    · exact ih _ (identOK_underscore h)
+    · exact h
+
 theorem nameOfIndex_identOK {c : Circ} (h : WellNamedSpec c) (i : Nat) :
     identOK (nameOfIndex c.qmap i) = true := by
   unfold nameOfIndex
   cases hk : getKeyByIndex c.qmap i with
-  | none => simpa using fallback_identOK i
+  | none => simpa using freshName_identOK _ _ _ (fallback_identOK i)
   | some k => simpa using h.keys _ (getKeyByIndex_mem hk)
 
 theorem nameOfIndex_inj {c : Circ} (h : WellNamedSpec c) {i j : Nat} (hi : i < c.numQubits)
@@ -894,17 +920,20 @@ theorem nameOfIndex_inj {c : Circ} (h : WellNamedSpec c) {i j : Nat} (hi : i < c
   unfold nameOfIndex at e
   cases hki : getKeyByIndex c.qmap i with
   | none =>
+    rw [hki, Option.getD_none, freshName_not_mem _ _ _ (h.fallback i hi hki)] at e
     cases hkj : getKeyByIndex c.qmap j with
     | none =>
-      simp [hki, hkj] at e
+      rw [hkj, Option.getD_none, freshName_not_mem _ _ _ (h.fallback j hj hkj)] at e
+      simp at e
       exact natText_inj e
     | some k =>
-      simp [hki, hkj] at e
+      simp [hkj] at e
       exact absurd (List.mem_map.mpr ⟨(k, j), getKeyByIndex_mem hkj, e.symm⟩) (h.fallback i hi hki)
   | some k =>
     cases hkj : getKeyByIndex c.qmap j with
     | none =>
-      simp [hki, hkj] at e
+      rw [hkj, Option.getD_none, freshName_not_mem _ _ _ (h.fallback j hj hkj)] at e
+      simp [hki] at e
       exact absurd (List.mem_map.mpr ⟨(k, i), getKeyByIndex_mem hki, e⟩) (h.fallback j hj hkj)
     | some k' =>
       simp [hki, hkj] at e
